@@ -263,7 +263,7 @@ class Gen:
                 t.elem = Type("REF", ref=name)
                 t.size_c = None
             return t
-        n = rng.choice([0, 1, 1, 2, 2, 3, 3, 4, 5, 7]) if k != "CHOICE" else rng.choice([1, 2, 2, 3, 4, 6])
+        n = rng.choice([0, 1, 1, 2, 2, 3, 3, 4, 5, 7, 10, 12]) if k != "CHOICE" else rng.choice([1, 2, 2, 3, 4, 6, 9])
         if k == "SET" and n == 0 and not p.get("empty_set"):
             n = 1       # KF-C10: "SET { ... }" / "SET { }" emits an empty enum (uncompilable)
         comps = []
@@ -345,23 +345,36 @@ class Gen:
         comps = t.all_comps()
         if mod.tagdefault == "AUTOMATIC" and rng.random() < 0.85:
             return      # automatic tagging takes care (no component carries a tag)
-        # manual: give distinct context tags to every component, random mode
-        style = rng.choice(["all", "all", "needed"])
+        # manual tagging.  Style "natural": leave the components as they are when the model finds them
+        # unambiguous (universal tags, untagged CHOICE members, tagged references ...); otherwise, or
+        # with style "all", give every component a distinct context tag.
+        if rng.random() < 0.4 and all(c.type.tag is None for c in comps):
+            from ..checks import c11faults
+            probe = Module("P", mod.tagdefault)
+            probe.types = dict(mod.types)
+            probe.types["X"] = t
+            try:
+                probe.finalize()
+                ok = not c11faults.problems(probe)
+            except (KeyError, ValueError, RecursionError):
+                ok = False
+            for c in comps:
+                c.autotag = None
+            if ok:
+                return
         used = set()
         nums = list(range(len(comps)))
         if rng.random() < 0.3:
             rng.shuffle(nums)
         for i, c in enumerate(comps):
-            if style == "all" or c.type.kind == "REF" or True:
-                num = nums[i] if rng.random() < 0.8 else 40 + nums[i] * 37
-                while num in used:
-                    num += 1
-                used.add(num)
-                # tagged component: wrap (a REF keeps its own node; tag lives on the comp type node)
-                if c.type.tag is None:
-                    c.type.tag = ("C", num, self.safe_mode(c.type))
-                else:
-                    c.type = Type("REF", ref=self._hoist(c.type), tag=("C", num, "EXPLICIT"))
+            num = nums[i] if rng.random() < 0.8 else 40 + nums[i] * 37
+            while num in used:
+                num += 1
+            used.add(num)
+            if c.type.tag is None:
+                c.type.tag = ("C", num, self.safe_mode(c.type))
+            else:
+                c.type = Type("REF", ref=self._hoist(c.type), tag=("C", num, "EXPLICIT"))
 
     def _hoist(self, t):
         nm = "H%d" % self.n
